@@ -27,6 +27,7 @@ type Program struct {
 	funcs   map[string]*ssa.Function // "cafs.(*fsWriter).Write" -> fn
 	fnName  map[*ssa.Function]string
 	built   map[*ssa.Package]bool
+	mutableGlobals map[*ssa.Global]bool // package variables assigned / address-taken outside their init (lazily built)
 	spkgs   map[string]*ssa.Package // by package name (last element)
 
 	contracts map[string]*FuncContract // by qualified function name
